@@ -245,7 +245,7 @@ def instantiate(matcher):
             return "{ dly(); COND_EVALS.fetch_add(1, SeqCst); a >= WHEN_MIN.load(SeqCst) }"
         if frag == "expr" and "ret" in nm:
             opts["returns"] = True
-            return "{ dly(); RET_SEQ.store(tick(), SeqCst); RET_EVALS.fetch_add(1, SeqCst); a * 2 + RET_K.load(SeqCst) }"
+            return "{ dly(); RET_SEQ.store(tick(), SeqCst); RET_EVALS.fetch_add(1, SeqCst); a * 2 + RET_K.load(SeqCst) + (*out ^ *out) }"
         if frag == "expr" and "expected" in nm:
             opts["times"] = True
             return "TIMES.load(SeqCst)"
